@@ -300,6 +300,8 @@ def summary(fn, norm, calls_pred=None, ctx=None, cut=False):
             keep = keep or last in STD_KEEP and not last in ("eq", "ne", "lt", "le", "gt", "ge", "contains")
         if last in norm.method_fields and len(t["a"]) == 1:
             keep = False
+        if last == "checked_sub" and t.get("t") is not None and any(st["k"] == "=" and (st["rv"].get("discr") or {}).get("l") == t["d"]["l"] for st in fn.blocks[t["t"]]["s"]):
+            keep = False    # matched on at once: reported as the comparison atom a < b and the difference a - b
         if not keep:
             continue
         whole = ("call", p, tuple(pv.operand(a, bi, len(fn.blocks[bi]["s"])) for a in t["a"]))
